@@ -27,14 +27,30 @@ def parseGen (j : Json) : Except String Gen := do
   let r ← Driver.getNat j "ret"
   return { src := src, ret := r }
 
+/-- `build`: how the lazy object of an `init_generator` request behaves when the server constructs it:
+absent / "ok" — a generator; "raise" — the constructor raises `ValueError`; "noniter" — it builds a value that
+is not an `Iterable` (`TypeError`) -/
+def parseBuild (j : Json) : Except String (Option ErrKind) :=
+  match (j.getObjValAs? String "build").toOption with
+  | none | some "ok" => return none
+  | some "raise" => return some .value
+  | some "noniter" => return some .type
+  | some b => throw s!"bad build {b}"
+
 def parseProg (j : Json) : Except String Prog := do
   let k ← Driver.getStr j "kind"
   match k with
   | "client" => do
-    let g ← parseGen j
-    let b ← Driver.getNat j "batch"
-    return .client g b
-  | "init" => do return .initIter (← parseGen j)
+    match ← parseBuild j with
+    | some e => return .initFail e true
+    | none =>
+      let g ← parseGen j
+      let b ← Driver.getNat j "batch"
+      return .client g b
+  | "init" => do
+    match ← parseBuild j with
+    | some e => return .initFail e false
+    | none => return .initIter (← parseGen j)
   | "next" => do return .nextBatch (← Driver.getNat j "batch")
   | "stop" => return .stopPrefetch ((j.getObjValAs? Bool "fatal").toOption.getD false)
   | "shutdown" => return .shutdown
@@ -70,6 +86,17 @@ def threadJson (t : Thread) : Json :=
       | none, some r => Json.mkObj [("done", true), ("outcome", Json.null), ("reply", replyJson r)]
       | o, _ => Json.mkObj [("done", true), ("outcome", optRaiseJson o)]
     else Json.mkObj [("done", false), ("outcome", Json.null)]
+  | .initFail _ cl =>
+    -- the handler RAISED (construction failure / `assert`): the fake courier answers with a non-OK status
+    -- (code 2, the handler's exception as its cause); a RETURNED `TimeoutError` (shutdown requested) and a call
+    -- to a stopped server look like those of a successful `init_generator`
+    let o := if !done then Json.null else match t.outcome with
+      | some (.err .timeout) => raiseJson (.err .timeout)
+      | some (.err .other) => raiseJson (.err .other)
+      | some (.err e) => Json.mkObj [("raise", "rpc_error"), ("code", (2 : Nat)), ("cause", e.name)]
+      | o => optRaiseJson o
+    if cl then Json.mkObj [("done", done), ("yielded", toJson ([] : List Nat)), ("outcome", o)]
+    else Json.mkObj [("done", done), ("outcome", o)]
   | _ => Json.mkObj [("done", done), ("outcome", if done then optRaiseJson t.outcome else Json.null)]
 
 /-- the operation a thread that is not enabled waits for (same wording as the scheduler's labels) -/
